@@ -808,7 +808,8 @@ var (
 // prefix / infix / (improper) suffix: they exercise the suffix test of
 // getParentConflictingRecord and the longest-suffix search of tokenIDFromName
 var nnsRepeatNames = []string{"x.a.com.x.a.com", "x.a.com.b.com", "a.com.a.com", "b.com.a.com", "x.b.com.x.b.com",
-	"y.a.com.y.a.com", "a.com.x.a.com", "x.a.x.a.com", "com.a.com", "w.x.a.com.w.x.a.com", "xx.a.com", "x.a.comx.a.com"}
+	"y.a.com.y.a.com", "a.com.x.a.com", "x.a.x.a.com", "com.a.com", "w.x.a.com.w.x.a.com", "xx.a.com", "x.a.comx.a.com", "xx.b.com",
+	"yy.a.com", "yz.y.a.com", "yw.x.b.com", "yax.a.com", "ya.com", "yb.com", "yx.a.com", "yx.b.com"}
 
 // nnsIsValid: safeSplitAndCheck accepts the name (the table written to Coq).
 func nnsIsValid(name string) bool {
@@ -1360,7 +1361,15 @@ func (g *nnsGen) scenario() {
 // deleteRecords, an add again.
 func (g *nnsGen) limitScenario() {
 	r := g.r
-	name := []string{"a.com", "b.com", "x.a.com", "x.b.com"}[r.Intn(4)]
+	name := []string{"a.com", "b.com", "x.a.com", "x.b.com", "y.a.com", "z.y.a.com", "w.x.b.com", "ax.a.com"}[r.Intn(8)]
+	// zone: the name that is registered — the name itself, or (for the last four) the
+	// 2nd-level name one or two levels above a sub-name that is NOT registered
+	zone := name
+	if r.Intn(8) >= 4 || name == "y.a.com" || name == "z.y.a.com" || name == "w.x.b.com" || name == "ax.a.com" {
+		for nnsLevel(zone) > 2 {
+			zone = nnsParent(zone)
+		}
+	}
 	typ := []int64{tTXT, tA, tAAAA}[r.Intn(3)]
 	n := 15 + r.Intn(2)
 	val := func(i int) string {
@@ -1383,12 +1392,17 @@ func (g *nnsGen) limitScenario() {
 	}
 	q(func() nnsOp { // make sure the token exists and lives long
 		owner := r.Intn(3)
-		o := nnsOp{Kind: "register", Name: name, Owner: owner, Email: "e@x.io", Refresh: 1, Retry: 2, Expire: 9 * 31536000, TTL: 4, T: g.now + 1}
-		o.Signers, o.Via = signFor([]int{owner, g.book.get(nnsParent(name)).owner})
+		o := nnsOp{Kind: "register", Name: zone, Owner: owner, Email: "e@x.io", Refresh: 1, Retry: 2, Expire: 9 * 31536000, TTL: 4, T: g.now + 1}
+		o.Signers, o.Via = signFor([]int{owner, g.book.get(nnsParent(zone)).owner})
 		return o
 	})
 	for i := 0; i < n; i++ {
 		op(nnsOp{Kind: "addRecord", Name: name, Typ: typ, Data: val(i)})
+		if i == 3 && zone != name {
+			// the zone's own list and a sibling's are other lists: same values are fine there
+			op(nnsOp{Kind: "addRecord", Name: zone, Typ: typ, Data: val(0)})
+			op(nnsOp{Kind: "addRecord", Name: "y" + name, Typ: typ, Data: val(0)})
+		}
 	}
 	op(nnsOp{Kind: "addRecord", Name: name, Typ: typ, Data: val(16)})
 	op(nnsOp{Kind: "addRecord", Name: name, Typ: typ, Data: val(17)})
@@ -1399,6 +1413,58 @@ func (g *nnsGen) limitScenario() {
 	op(nnsOp{Kind: "deleteRecords", Name: name, Typ: typ})
 	q(func() nnsOp { return nnsOp{Kind: "getRecords", Name: name, Typ: typ, T: g.now + 1} })
 	op(nnsOp{Kind: "addRecord", Name: name, Typ: typ, Data: val(0)})
+}
+
+// subScenario: records of sub-names that are NOT registered themselves, one
+// and two levels below a registered zone: the rules are per NAME — single
+// CNAME, duplicates, setRecord ids — whatever the zone itself and sibling
+// sub-names hold; zone-CNAME-then-sub-name-CNAME and the reverse.
+func (g *nnsGen) subScenario() {
+	r := g.r
+	zone, s1, s2, sib := "a.com", "y.a.com", "z.y.a.com", "ax.a.com"
+	if r.Intn(2) == 0 {
+		zone, s1, s2, sib = "b.com", "x.b.com", "w.x.b.com", "xx.b.com"
+	}
+	q := func(f func() nnsOp) { g.queue = append(g.queue, f) }
+	op := func(o nnsOp) {
+		q(func() nnsOp {
+			o.T = g.now + 1 + uint64(r.Intn(5))
+			tok := g.book.token(o.Name, o.T)
+			o.Signers, o.Via = signFor([]int{g.book.get(tok).owner})
+			return o
+		})
+	}
+	q(func() nnsOp {
+		owner := r.Intn(3)
+		o := nnsOp{Kind: "register", Name: zone, Owner: owner, Email: "e@x.io", Refresh: 1, Retry: 2, Expire: 9 * 31536000, TTL: 4, T: g.now + 1}
+		o.Signers, o.Via = signFor([]int{owner})
+		return o
+	})
+	cn := func(n, d string) { op(nnsOp{Kind: "addRecord", Name: n, Typ: tCNAME, Data: d}) }
+	if r.Intn(2) == 0 {
+		cn(zone, "ab.com") // the zone has its CNAME first ...
+		cn(s1, "ab.com")   // ... every sub-name still gets its own one
+		cn(s2, "a.org")
+	} else {
+		cn(s1, "ab.com")
+		cn(s2, "a.org")
+		cn(zone, "ab.com") // ... or the other way round
+	}
+	cn(s1, "a.org") // a second one: refused, per name
+	cn(s2, "ab.com")
+	cn(zone, "a.org")
+	cn(sib, "ab.com") // the sibling's first
+	op(nnsOp{Kind: "setRecord", Name: s1, Typ: tCNAME, ID: 0, Data: "a.org"})
+	op(nnsOp{Kind: "setRecord", Name: s1, Typ: tCNAME, ID: 1, Data: "ab.com"})
+	for _, n := range []string{s1, sib, zone, s1, s2} { // the same value under different names; the 2nd s1 is a duplicate
+		op(nnsOp{Kind: "addRecord", Name: n, Typ: tTXT, Data: "t1"})
+	}
+	op(nnsOp{Kind: "setRecord", Name: sib, Typ: tTXT, ID: 0, Data: "t2"})
+	op(nnsOp{Kind: "setRecord", Name: s2, Typ: tTXT, ID: 1, Data: "t2"})
+	op(nnsOp{Kind: "deleteRecords", Name: []string{s1, zone}[r.Intn(2)], Typ: tCNAME})
+	cn(s1, "b.com")
+	q(func() nnsOp { return nnsOp{Kind: "getRecords", Name: s1, Typ: tCNAME, T: g.now + 1} })
+	q(func() nnsOp { return nnsOp{Kind: "resolve", Name: s2, Typ: tTXT, T: g.now + 1} })
 }
 
 // cnameScenario: 2..4 names, each with own records of every type (distinct
@@ -1476,6 +1542,9 @@ func (g *nnsGen) next(step int) nnsOp {
 	}
 	if step == 6 && g.lim {
 		g.limitScenario()
+	}
+	if step == 6 && g.scn && g.prop == "C12" {
+		g.subScenario()
 	}
 	if len(g.queue) > 0 {
 		f := g.queue[0]
@@ -2092,6 +2161,21 @@ func nnsCorpus1(prop string) [][]nnsOp {
 			sp(nnsOp{Kind: "transfer", Name: "a.com", Owner: pU2}, c.sponsor, c.entry, c.via, c.ps...)
 		}
 		out = append(out, h)
+		// a 3rd-level name expires while its parent lives: re-registration needs the parent's
+		// owner/admin again; registering a LIVE name once more (by its owner) changes nothing
+		start()
+		reg("a.com", pU0, 9*Y, pU0)
+		add(nnsOp{Kind: "setAdmin", Name: "a.com", Owner: pU1}, pU0, pU1)
+		reg("x.a.com", pU1, 2, pU1)  // by the parent's admin; t=5, exp 2005
+		reg("a.com", pU0, 3600, pU0) // live: false, admin and expiration stay
+		reg("x.a.com", pU1, 3600, pU1)
+		at(2005)
+		reg("x.a.com", pU2, 3600, pU2)       // a stranger alone
+		reg("x.a.com", pC, 3600, pC)         // a contract alone
+		reg("x.a.com", pU2, 3600, pU2, pCmt) // nor the committee
+		reg("x.a.com", pU2, 3600, pU0, pU2)  // with the parent's owner
+		reg("x.a.com", pU2, 3600, pU0, pU2)  // live again: false
+		out = append(out, h)
 		// the direct parent expired: its owner cannot plant sub-names any more
 		start()
 		reg("a.com", pU0, 2, pU0) // t=3, exp 2003
@@ -2136,14 +2220,14 @@ func nnsCorpus1(prop string) [][]nnsOp {
 		reg("a.com", pU0, 3600, pU0)
 		rec("addRecord", "a.com", tTXT, 0, "t1", pU0)
 		rec("addRecord", "x.a.com", tTXT, 0, "t2", pU0)
-		for i, v := range append(nnsSpellings("a.com"), "x.a.com.", "x.a.com ") {
+		for i, v := range append(nnsSpellings("a.com")[:4], "x.a.com.", "x.a.com ") {
 			rec("addRecord", v, tTXT, 0, "t3", pU0)
 			add(nnsOp{Kind: "resolve", Name: v, Typ: tTXT})
 			if i%2 == 0 {
 				rec("deleteRecords", v, tTXT, 0, "", pU0)
 				add(nnsOp{Kind: "getRecords", Name: v, Typ: tTXT})
 			}
-			if i < 1 || i >= 7 {
+			if i < 1 || i >= 5 {
 				rec("setRecord", v, tTXT, 0, "t3", pU0)
 				add(nnsOp{Kind: "getAllRecords", Name: v})
 				add(nnsOp{Kind: "isAvailable", Name: v})
@@ -2271,6 +2355,37 @@ func nnsCorpus1(prop string) [][]nnsOp {
 		rec("deleteRecords", "w.x.a.com", tTXT, 0, "", pU1) // t = exp: token is a.com now
 		rec("addRecord", "w.x.a.com", tTXT, 0, "t2", pU1)
 		out = append(out, h)
+		// 14: sub-names that are not registered (1 and 2 levels below the zone a.com): the
+		// single-CNAME rule, duplicates and ids are per NAME, independent of the zone's own
+		// records and of siblings; zone-CNAME-then-sub-name-CNAME and the reverse
+		start()
+		reg("a.com", pU0, 3600, pU0)
+		reg("b.com", pU0, 3600, pU0)
+		rec("addRecord", "y.a.com", tCNAME, 0, "b.com", pU0)
+		rec("addRecord", "y.a.com", tCNAME, 0, "ab.com", pU0) // a second CNAME of y.a.com: refused
+		rec("addRecord", "z.y.a.com", tCNAME, 0, "b.com", pU0)
+		rec("addRecord", "z.y.a.com", tCNAME, 0, "ab.com", pU0)
+		rec("addRecord", "a.com", tCNAME, 0, "b.com", pU0) // the zone after its sub-names
+		rec("addRecord", "a.com", tCNAME, 0, "ab.com", pU0)
+		rec("addRecord", "ax.a.com", tCNAME, 0, "ab.com", pU0) // a sub-name after the zone: its first one
+		rec("addRecord", "ax.a.com", tCNAME, 0, "b.com", pU0)
+		rec("addRecord", "b.com", tCNAME, 0, "a.com", pU0)   // another zone: CNAME first ...
+		rec("addRecord", "x.b.com", tCNAME, 0, "a.com", pU0) // ... then its sub-names
+		rec("addRecord", "w.x.b.com", tCNAME, 0, "a.com", pU0)
+		rec("addRecord", "x.b.com", tCNAME, 0, "ab.com", pU0)
+		add(nnsOp{Kind: "getRecords", Name: "y.a.com", Typ: tCNAME})
+		add(nnsOp{Kind: "resolve", Name: "y.a.com", Typ: tTXT})
+		for _, n0 := range []string{"y.a.com", "ax.a.com", "a.com", "z.y.a.com", "y.a.com"} {
+			rec("addRecord", n0, tTXT, 0, "t1", pU0) // same value under different names; y.a.com twice
+		}
+		rec("setRecord", "y.a.com", tTXT, 0, "t2", pU0)
+		rec("setRecord", "ax.a.com", tTXT, 0, "t2", pU0)
+		rec("setRecord", "z.y.a.com", tTXT, 1, "t2", pU0)
+		rec("deleteRecords", "y.a.com", tCNAME, 0, "", pU0)
+		rec("addRecord", "y.a.com", tCNAME, 0, "ab.com", pU0)
+		rec("deleteRecords", "a.com", tCNAME, 0, "", pU0)
+		rec("addRecord", "z.y.a.com", tCNAME, 0, "ab.com", pU0) // still its own one
+		out = append(out, h)
 		// 12: resolve order — a name with a CNAME and own records of every other type,
 		// aliases with records of the same types (distinct values everywhere), chains
 		// of 1..3: own records in id order first, then those reached through the chain
@@ -2279,9 +2394,10 @@ func nnsCorpus1(prop string) [][]nnsOp {
 			reg(n0, pU0, 3600, pU0)
 			rec("addRecord", n0, tTXT, 0, fmt.Sprintf("r%d", 10*i), pU0)
 			rec("addRecord", n0, tTXT, 0, fmt.Sprintf("r%d", 10*i+1), pU0)
-			rec("addRecord", n0, tA, 0, fmt.Sprintf("1.2.3.%d", 10*i+1), pU0)
 			rec("addRecord", n0, tAAAA, 0, fmt.Sprintf("2001:db9::%x", 10*i+1), pU0)
-			rec("addRecord", n0, tAAAA, 0, fmt.Sprintf("2001:db9::%x", 10*i+2), pU0)
+			if i < 2 {
+				rec("addRecord", n0, tA, 0, fmt.Sprintf("1.2.3.%d", 10*i+1), pU0)
+			}
 		}
 		rec("addRecord", "a.com", tCNAME, 0, "b.com", pU0)
 		for _, ty := range []int64{tA, tTXT, tAAAA, tCNAME, tSOA} {
@@ -2292,7 +2408,7 @@ func nnsCorpus1(prop string) [][]nnsOp {
 			add(nnsOp{Kind: "resolve", Name: "a.com.", Typ: ty})
 		}
 		rec("addRecord", "ab.com", tCNAME, 0, "x.a.com", pU0)
-		for _, ty := range []int64{tA, tTXT, tAAAA} {
+		for _, ty := range []int64{tTXT, tAAAA} {
 			add(nnsOp{Kind: "resolve", Name: "a.com", Typ: ty})
 			add(nnsOp{Kind: "resolve", Name: "b.com", Typ: ty})
 		}
@@ -2395,13 +2511,14 @@ type nnsMon struct {
 	owner   map[string]int      // replay of the Transfer notifications
 	recs    map[string][]string // token|name|type byte -> data list (spec of C12)
 	dupBy   map[string]bool     // keys whose duplicate was made by setRecord (F14)
+	soaBad  map[string]bool     // tokens whose SOA data updateSoaSerial cannot parse (odd e-mail)
 	hist    []string
 	deepSub int
 }
 
 func newNNSMon(prop string, st *Stats, readers []nnsOp) *nnsMon {
 	return &nnsMon{prop: prop, st: st, readers: readers, book: newNNSBook(), owner: map[string]int{},
-		recs: map[string][]string{}, dupBy: map[string]bool{}}
+		recs: map[string][]string{}, dupBy: map[string]bool{}, soaBad: map[string]bool{}}
 }
 
 func (m *nnsMon) keys() []string {
@@ -2609,6 +2726,48 @@ func (m *nnsMon) step(o nnsOp, ob *nnsObs) {
 		m.violate("%s: %d Transfer notifications, expected %d", o.String(), nTransfer, wantT)
 	}
 
+	// ---- addRecord is accepted exactly when the spec says so — judged per NAME: the
+	// list of (token, name, type), not the zone's own records nor a sibling's
+	if o.Kind == "addRecord" {
+		k := rkeyOf(tokPre, o.Name, o.Typ)
+		why := ""
+		switch {
+		case !nnsIsValid(o.Name) || nnsLevel(tokPre) < 2 || !m.chainLivePre(pre, tokPre, now):
+			why = "no live token"
+		case o.Typ != tA && o.Typ != tCNAME && o.Typ != tTXT && o.Typ != tAAAA || !nnsDataValid(o.Typ, o.Data):
+			why = "type/data not accepted"
+		case !m.authorised(o):
+			why = "not authorised"
+		case len(m.recs[k]) >= 16:
+			why = "16 records already"
+		case o.Typ == tCNAME && len(m.recs[k]) > 0:
+			why = "the name has a CNAME already"
+		case m.soaBad[tokPre]:
+			why = "SOA data unparseable"
+		}
+		for _, d := range m.recs[k] {
+			if d == o.Data && why == "" {
+				why = "duplicate value"
+			}
+		}
+		if effect && why != "" {
+			m.violate("C12: %s accepted although: %s (records of that name and type: %q)", o.String(), why, m.recs[k])
+		}
+		if !effect && why == "" && o.Sponsor == 0 {
+			m.violate("C12: %s refused (%s) although the spec accepts it (records of that name and type: %q)", o.String(), ob.fault, m.recs[k])
+		}
+	}
+	if effect && (o.Kind == "register" || o.Kind == "updateSOA") {
+		bad := o.Email == "" || strings.ContainsAny(o.Email, " ") || strings.IndexFunc(o.Email, func(c rune) bool { return c > 127 }) >= 0
+		tk := o.Name
+		if o.Kind == "register" && o.Expire <= 0 {
+			tk = "" // dead on arrival: the SOA lands elsewhere
+		}
+		if tk != "" {
+			m.soaBad[tk] = bad
+		}
+	}
+
 	// ---- spec of the records (C12), before the book is updated
 	if effect {
 		switch o.Kind {
@@ -2683,6 +2842,9 @@ func (m *nnsMon) step(o nnsOp, ob *nnsObs) {
 		case "register":
 			if !m.chainLivePre(pre, nnsParent(o.Name), now) {
 				m.violate("%s took effect under a parent chain that is not live", o.String())
+			}
+			if p0, ok := pre[o.Name]; ok && p0.registered && now < p0.exp {
+				m.violate("%s succeeded on a live name (expires %d)", o.String(), p0.exp)
 			}
 		case "transfer":
 			if p0, ok := pre[o.Name]; !ok || !p0.registered || now >= p0.exp {
@@ -2908,6 +3070,20 @@ func (m *nnsMon) step(o nnsOp, ob *nnsObs) {
 					if !sameStrs(flat, got) {
 						m.violate("C12: getAllRecords(%s) = %q, spec %q", r.Name, got, flat)
 					}
+					// the per-name, per-type rules on what the contract itself lists
+					cnt, seen := map[string]int{}, map[string]bool{}
+					for _, rc := range v.recs {
+						cnt[rc[1]]++
+						if seen[rc[1]+"|"+rc[2]] {
+							m.violate("C12: getAllRecords(%s): value %q twice for type %s", r.Name, rc[2], rc[1])
+						}
+						seen[rc[1]+"|"+rc[2]] = true
+					}
+					for ty, c := range cnt {
+						if c > 16 || (ty == "5" || ty == "6") && c > 1 {
+							m.violate("C12: getAllRecords(%s): %d records of type %s", r.Name, c, ty)
+						}
+					}
 					// SOA serial after a record mutation
 					if effect && nm == tokPre && (o.Kind == "addRecord" || o.Kind == "setRecord" || o.Kind == "deleteRecords") {
 						okSerial := false
@@ -2973,7 +3149,7 @@ func runNNSFamily(t *testing.T, prop string) {
 	nh, maxOps := 48, 34
 	switch prop {
 	case "C12":
-		nh, maxOps = 9, 32
+		nh, maxOps = 6, 32
 	}
 	if Tier() == "thorough" {
 		nh, maxOps = nh*10, 60
@@ -3005,6 +3181,9 @@ func runNNSFamily(t *testing.T, prop string) {
 				g.scn = true
 				if nops < 20 {
 					nops = 20
+				}
+				if prop == "C12" && nops < 42 {
+					nops = 42 // + the sub-name scenario
 				}
 			}
 			if prop == "C12" && hidx%3 == 2 {
